@@ -339,6 +339,19 @@ def extra_streams(pid, tier, rng, scale):
             for u in range(1 << 18): lines.append('p16 sub_one %x' % u)
         else:
             for _ in range(per): lines.append('p16 sub_one %x' % rng.randrange(1 << 18))
+    if pid in ('C06', 'C16'):
+        # the hardest-to-round P32E2 square roots: exact integer search over all 2^31 positive patterns by the harness's own
+        # (crate-independent) tool, cached in work/
+        k_ = (1000000 if pid == 'C06' else 100000) * (6 if tier == 'thorough' else 1)
+        cache = os.path.join(core.WORK, 'sqrt_hard_p32_%d.txt' % k_)
+        if not os.path.exists(cache):
+            import subprocess
+            exe = os.path.join(core.TARGET, 'release', 'verif_harness')
+            r_ = subprocess.run([exe, '--sqrt-hard', str(k_)], capture_output=True, text=True)
+            if r_.returncode == 0 and r_.stdout: open(cache, 'w').write(r_.stdout)
+        if os.path.exists(cache):
+            for x_ in open(cache).read().split():
+                lines.append('p32 sqrt ' + x_)
     if pid == 'C15':
         import math
         sys_path = os.path.join(core.VERIF, 'tools')
